@@ -1,6 +1,9 @@
 SPECIFICATION FairSpec
 CONSTANTS RecvDeadline = FALSE
+          ArtimEveryLoop = TRUE
+          ServerHandshakeDeadline = FALSE
           Dribbles = 2
+INVARIANT TypeOK
 CONSTRAINT BoundaryOnly
 PROPERTY C08_Ends
 CHECK_DEADLOCK FALSE
